@@ -4,7 +4,11 @@
       PVgen.Gen_LehGFPartCompute     gen_gf_nest, gen_gf_blocks           GreensFunctionPart::compute
       PVgen.Gen_LehSuscPartCompute   gen_susc_nest, gen_susc_blocks       SusceptibilityPart::compute
       PVgen.Gen_LehAddTerm           gen_add_term                         TermList::add_term
-      (further fragments below, each named where it is used)
+      PVgen.Gen_LehTermListEval      gen_termlist_eval                    TermList::operator()
+      PVgen.Gen_LehGFTermTau / Gen_LehSuscTermTau     gen_*_term_tau      Term::operator()(tau, beta)
+      PVgen.Gen_LehGFPartEval / Gen_LehSuscPartEval   gen_*part_z / _tau (+ _args), gen_*part_matsubara   the call operators of a part
+      PVgen.Gen_LehGFEval / Gen_LehSuscEval           gen_*_value_z / _tau, gen_*_matsubara             the call operators of the object
+      PVgen.Gen_LehEACompute         gen_ea_first / _cmp / _op / _summand EnsembleAverage::compute
 
     The [..._src] functions are the interpreters of PV.LehmannInterp applied to these descriptions; the leaf expressions that a
     description does not carry itself (Term::Compare, IsNegligible, operator+=) are PVgen.Gen_C01's.  What is shared with the
@@ -14,7 +18,8 @@
     and from them `..._src = model`.   Definitions only. *)
 Require Import Bool List Arith ZArith.
 From PV Require Import EDSpec NumLit Sparse TermList GFPart SuscPart LehmannShapes LehmannInterp.
-From PVgen Require Import Gen_C01 Gen_LehGFPartCompute Gen_LehSuscPartCompute Gen_LehAddTerm.
+From PVgen Require Import Gen_C01 Gen_LehGFPartCompute Gen_LehSuscPartCompute Gen_LehAddTerm Gen_LehTermListEval
+     Gen_LehGFTermTau Gen_LehSuscTermTau Gen_LehGFPartEval Gen_LehSuscPartEval Gen_LehGFEval Gen_LehSuscEval Gen_LehEACompute.
 Import ListNotations.
 
 Section Src.
@@ -82,5 +87,102 @@ Definition gf_part_compute_src (lenient : bool) (T : tols K) (blk : nat * nat) (
 Definition susc_part_compute_src (lenient : bool) (T : tols K) (blk : nat * nat) (inp : part_in K) : wres (list gterm * K) :=
   wmap (fun evs => (terms_of_events (susc_add_term_src T) evs, zero_of_events evs))
        (part_events gen_susc_nest (gen_susc_blocks K NO) lenient T blk inp).
+
+(** * Evaluation *)
+Definition part_arg_eval (params : list K) (beta rrt dflt : K) (a : part_arg) : K :=
+  match a with
+  | PaArg n => nth n params k0
+  | PaBeta => beta
+  | PaReduceResonanceTolerance => rrt
+  | PaDefault => dflt
+  end.
+
+(** the overloads of Term::operator(): one argument = the frequency, two = (tau, beta) *)
+Definition gf_term_call (t : gterm) (args : list K) : K :=
+  match args with
+  | [z] => gf_term_eval K NO (snd t) (fst t) z
+  | [tau; beta] => gen_gf_term_tau K NO (snd t) (fst t) tau beta
+  | _ => k0
+  end.
+Definition susc_term_call (t : gterm) (args : list K) : K :=
+  match args with
+  | [z] => susc_term_eval K NO (snd t) (fst t) z
+  | [tau; beta] => gen_susc_term_tau K NO (snd t) (fst t) tau beta
+  | _ => k0
+  end.
+Definition terms_call_by (call : gterm -> list K -> K) (terms : list gterm) (args : list K) : K :=
+  termlist_eval_by gterm K k0 kadd ksub gen_termlist_eval (fun t => call t args) terms.
+
+(** GreensFunctionPart::operator()(z), of_tau(tau) *)
+Definition gf_part_value_src (terms : list gterm) (beta z : K) : K :=
+  gen_gfpart_z K NO (terms_call_by gf_term_call terms (map (part_arg_eval [z] beta k0 k0) gen_gfpart_z_args)) k0 beta z.
+Definition gf_part_value_tau_src (terms : list gterm) (tau beta : K) : K :=
+  gen_gfpart_tau K NO (terms_call_by gf_term_call terms (map (part_arg_eval [tau] beta k0 k0) gen_gfpart_tau_args)) k0 beta tau.
+(** SusceptibilityPart::operator()(z), of_tau(tau); a part = (Terms, ZeroPoleWeight) *)
+Definition susc_part_value_src (part : list gterm * K) (beta z : K) : K :=
+  gen_suscpart_z K NO (terms_call_by susc_term_call (fst part) (map (part_arg_eval [z] beta k0 k0) gen_suscpart_z_args)) (snd part) beta z.
+Definition susc_part_value_tau_src (part : list gterm * K) (tau beta : K) : K :=
+  gen_suscpart_tau K NO (terms_call_by susc_term_call (fst part) (map (part_arg_eval [tau] beta k0 k0) gen_suscpart_tau_args)) (snd part) beta tau.
+
+Definition is_nil {A} (l : list A) : bool := match l with [] => true | _ => false end.
+
+(** GreensFunction::operator()(z), of_tau(tau): Vanishing = no part was created by prepare(); [None] = no return executed *)
+Definition gf_value_src (parts : list (list gterm)) (beta z : K) : option K :=
+  value_by K k0 kadd ksub (is_nil parts) false (map (fun ts => gf_part_value_src ts beta z) parts) (mk_venv z beta k0 k0)
+           (gen_gf_value_z K NO).
+Definition gf_value_tau_src (parts : list (list gterm)) (tau beta : K) : option K :=
+  value_by K k0 kadd ksub (is_nil parts) false (map (fun ts => gf_part_value_tau_src ts tau beta) parts) (mk_venv tau beta k0 k0)
+           (gen_gf_value_tau K NO).
+(** Susceptibility::operator()(z), of_tau(tau); [sub] = Some (ave_A, ave_B) after subtractDisconnected *)
+Definition susc_value_src (parts : list (list gterm * K)) (sub : option (K * K)) (beta z : K) : option K :=
+  value_by K k0 kadd ksub (is_nil parts) (match sub with Some _ => true | None => false end)
+           (map (fun p => susc_part_value_src p beta z) parts)
+           (mk_venv z beta (match sub with Some ab => fst ab | None => k0 end) (match sub with Some ab => snd ab | None => k0 end))
+           (gen_susc_value_z K NO).
+Definition susc_value_tau_src (parts : list (list gterm * K)) (sub : option (K * K)) (tau beta : K) : option K :=
+  value_by K k0 kadd ksub (is_nil parts) (match sub with Some _ => true | None => false end)
+           (map (fun p => susc_part_value_tau_src p tau beta) parts)
+           (mk_venv tau beta (match sub with Some ab => fst ab | None => k0 end) (match sub with Some ab => snd ab | None => k0 end))
+           (gen_susc_value_tau K NO).
+
+(** operator()(long n): the argument handed to operator()(ComplexType) *)
+Definition gf_matsubara_src (kpi beta : K) (n : Z) : K :=
+  nmul K NO (matsubara_spacing K NO (nI K NO) kpi beta) (nofZ K NO (gen_gf_matsubara n)).
+Definition gfpart_matsubara_src (kpi beta : K) (n : Z) : K :=
+  nmul K NO (matsubara_spacing K NO (nI K NO) kpi beta) (nofZ K NO (gen_gfpart_matsubara n)).
+Definition susc_matsubara_src (kpi beta : K) (n : Z) : K :=
+  nmul K NO (matsubara_spacing K NO (nI K NO) kpi beta) (nofZ K NO (gen_susc_matsubara n)).
+Definition suscpart_matsubara_src (kpi beta : K) (n : Z) : K :=
+  nmul K NO (matsubara_spacing K NO (nI K NO) kpi beta) (nofZ K NO (gen_suscpart_matsubara n)).
+
+(** * The whole object: prepare() (PV.GFPart.gf_prepare; its loop body is tied by PVgen.Gen_RetainGF / Gen_RetainSusc through
+    PV.ThermalGen), then compute() of every part; HpartOuter = H.getPart(left block), HpartInner = H.getPart(right block) *)
+Fixpoint gf_compute_parts_src (lenient : bool) (T : tols K) (ps : list ((nat * nat) * part_in K)) : wres (list (list gterm)) :=
+  match ps with
+  | [] => WDone []
+  | (lr, inp) :: r =>
+    wbind (gf_part_compute_src lenient T lr inp) (fun o => wmap (cons o) (gf_compute_parts_src lenient T r))
+  end.
+Definition gf_compute_src (lenient : bool) (T : tols K) (g : gf_in K) : wres (list (list gterm)) :=
+  match gf_prepare K g with
+  | None => WOOB SideA 0
+  | Some ps => gf_compute_parts_src lenient T ps
+  end.
+Fixpoint susc_compute_parts_src (lenient : bool) (T : tols K) (ps : list ((nat * nat) * part_in K)) : wres (list (list gterm * K)) :=
+  match ps with
+  | [] => WDone []
+  | (lr, inp) :: r =>
+    wbind (susc_part_compute_src lenient T lr inp) (fun o => wmap (cons o) (susc_compute_parts_src lenient T r))
+  end.
+Definition susc_compute_src (lenient : bool) (T : tols K) (g : gf_in K) : wres (list (list gterm * K)) :=
+  match gf_prepare K g with
+  | None => WOOB SideA 0
+  | Some ps => susc_compute_parts_src lenient T ps
+  end.
+
+(** * EnsembleAverage::compute *)
+Definition ea_part_src (a : cs K) (w : list K) : K :=
+  fold_left (fun acc i => acc_apply kadd ksub gen_ea_op acc (gen_ea_summand K NO (cs_coeff K NO a) (fun i => nth i w k0) i))
+            (match outer_range gen_ea_first gen_ea_cmp (cs_outer a) with Some os => os | None => [] end) k0.
 
 End Src.
